@@ -10,7 +10,7 @@ from ..astutil import attr_chain, canon_atom, cond_atoms, const_number, negate_a
 from ..model import AnalysisIncomplete, FuncInfo, norm_text
 from ..report import Finding, RuleResult
 from ..sign import sign_of, POS
-from ..symexp import paths_of, is_store, is_synth, strip_stores, uwalk, shash, brief, unames
+from ..symexp import paths_of, is_store, is_component, is_synth, strip_stores, uwalk, shash, brief, unames
 from . import register, A_CFG, T_OPS, A_NET
 
 FAMILIES = [
@@ -515,15 +515,19 @@ def tail_rule(ctx):
         om = outside[0]
         if outside[1] != "bad":
             res.ok("%s: outside mask is the complement (%s)" % (outer.name, outside[1]))
-        # outside entries: outputs = inputs, logabsdet = 0
+        # outside entries: outputs = inputs, logabsdet = 0 -- read off the returned expressions
+        # region by region (masked stores, torch.where, zeros initialisation in any mix)
         id_ok = ld_ok = False
-        for n in ast.walk(fn):
-            if isinstance(n, ast.Assign) and len(n.targets) == 1 and isinstance(n.targets[0], ast.Subscript) and norm_text(n.targets[0].slice) == om:
-                v = n.value
-                if isinstance(v, ast.Subscript) and norm_text(v.value) == x and norm_text(v.slice) == om:
-                    id_ok = True
-                elif const_number(v) == 0:
-                    ld_ok = True
+        verdicts = []
+        for pp in paths_of(fn):
+            if pp.kind != "return" or not (isinstance(pp.ret, ast.Tuple) and len(pp.ret.elts) == 2):
+                continue
+            ov = _region_value(pp.ret.elts[0], "out", x, nm, om, assigns)
+            lv = _region_value(pp.ret.elts[1], "out", x, nm, om, assigns)
+            verdicts.append((ov == "x", lv == "0"))
+        if verdicts:
+            id_ok = all(v[0] for v in verdicts)
+            ld_ok = all(v[1] for v in verdicts)
         if id_ok and ld_ok:
             res.ok("%s: outside the bound outputs = inputs and logabsdet = 0" % outer.name)
         else:
@@ -546,6 +550,62 @@ def tail_rule(ctx):
         for c in calls:
             _check_inner_call(res, inner, outer, c, B, params, fn)
     return res
+
+
+def _region_value(e, region, x, inside_name, outside_name, assigns, depth=0):
+    """value of a tensor expression on the rows of one region ("in" / "out") of the tail
+    partition: "x" (the inputs themselves), "0", ("call", text) or None (unknown).  Masked stores,
+    torch.where and zero initialisations are resolved; the masks are recognised by the local
+    names the wrapper binds them to (their definitions are checked separately) or by expressions
+    equal to those definitions."""
+    if depth > 40 or e is None:
+        return None
+
+    def mask_region(m):
+        t = norm_text(m)
+        defs_in = {norm_text(a.value) for a in assigns.get(inside_name, [])}
+        defs_out = {norm_text(a.value) for a in assigns.get(outside_name, [])}
+        if t == inside_name or t in defs_in or t == "~%s" % outside_name or t in {"~(%s)" % d for d in defs_out} or t in {"~%s" % d for d in defs_out}:
+            return "in"
+        if t == outside_name or t in defs_out or t == "~%s" % inside_name or t in {"~(%s)" % d for d in defs_in} or t in {"~%s" % d for d in defs_in}:
+            return "out"
+        return None
+
+    v = const_number(e)
+    if v is not None:
+        return "0" if v == 0 else ("const", v)
+    if isinstance(e, ast.Name):
+        return "x" if e.id == x else None
+    if isinstance(e, ast.Call):
+        if is_store(e):
+            old, idx, val = e.args
+            r = mask_region(idx)
+            if r is None:
+                return None
+            if r == region:
+                return _region_value(val, region, x, inside_name, outside_name, assigns, depth + 1)
+            return _region_value(old, region, x, inside_name, outside_name, assigns, depth + 1)
+        if is_component(e):
+            return ("call", norm_text(e)[:200])
+        last = func_last(e)
+        if last in ("zeros_like", "new_zeros", "zeros"):
+            return "0"
+        if last == "where" and len(e.args) == 3:
+            r = mask_region(e.args[0])
+            if r is None:
+                return None
+            return _region_value(e.args[1] if r == region else e.args[2], region, x, inside_name, outside_name, assigns, depth + 1)
+        if last in ("clone", "contiguous", "float", "double") and isinstance(e.func, ast.Attribute) and not e.args:
+            return _region_value(e.func.value, region, x, inside_name, outside_name, assigns, depth + 1)
+        if last in ("empty_like",):
+            return None
+        return None
+    if isinstance(e, ast.Subscript):
+        r = mask_region(e.slice)
+        if r is not None and r == region:
+            return _region_value(e.value, region, x, inside_name, outside_name, assigns, depth + 1)
+        return None
+    return None
 
 
 def _check_inner_call(res, inner, outer, c, B, params, fn):
@@ -617,6 +677,14 @@ def _canon_minmax(test):
             return None
 
         def red(e):
+            # `.item()` / float(.) turn the extreme into a Python float: the comparison is then
+            # made in double precision against a bound that the tensor holds in its own dtype
+            if isinstance(e, ast.Call) and isinstance(e.func, ast.Attribute) and e.func.attr == "item" and not e.args:
+                inner = red(e.func.value)
+                return (inner[0], inner[1], "host") if inner is not None else None
+            if isinstance(e, ast.Call) and isinstance(e.func, ast.Name) and e.func.id == "float" and len(e.args) == 1:
+                inner = red(e.args[0])
+                return (inner[0], inner[1], "host") if inner is not None else None
             if isinstance(e, ast.Call):
                 f = norm_text(e.func)
                 if f in ("torch.min", "torch.max", "torch.amin", "torch.amax") and len(e.args) == 1:
@@ -626,11 +694,12 @@ def _canon_minmax(test):
             return None
 
         a, b = red(l), red(r)
+        host = "@host" if (a is not None and len(a) > 2) or (b is not None and len(b) > 2) else ""
         if a is not None and b is None:
-            out.add("%s(%s) %s %s" % (a[0], a[1], sym, _num_text(r)))
+            out.add("%s(%s)%s %s %s" % (a[0], a[1], host, sym, _num_text(r)))
         elif b is not None and a is None:
             flip = {"<": ">", "<=": ">=", ">": "<", ">=": "<="}[sym]
-            out.add("%s(%s) %s %s" % (b[0], b[1], flip, _num_text(l)))
+            out.add("%s(%s)%s %s %s" % (b[0], b[1], host, flip, _num_text(l)))
         else:
             return None
     return out
@@ -671,29 +740,48 @@ def dom_guard_rule(ctx):
             want.add("MIN(%s) %s %s" % (x, "<=" if lo_open else "<", lo))
         if hi is not None:
             want.add("MAX(%s) %s %s" % (x, ">=" if hi_open else ">", hi))
-        body = [s for s in fi.node.body if not (isinstance(s, ast.Expr) and isinstance(s.value, ast.Constant))]
-        guard = None
-        before_use = True
-        for st in body:
-            if isinstance(st, ast.If) and any(isinstance(b, ast.Raise) and "InputOutsideDomain" in norm_text(b.exc) for b in st.body):
-                guard = st
-                break
-            if x in {n.id for n in ast.walk(st) if isinstance(n, ast.Name)}:
-                before_use = False
-        if guard is None:
+        # the guard is read off the raising paths of the expansion: whatever the spelling
+        # (inline `if`, a shared private helper, two separate tests), a path that raises
+        # InputOutsideDomain carries the rejecting condition; locals are expanded, so a test on a
+        # rebound / transformed input shows as such
+        allp = paths_of(fi.node)
+        rpaths = [pp for pp in allp if pp.kind == "raise" and pp.raise_exc is not None and "InputOutsideDomain" in norm_text(pp.raise_exc)]
+        if not rpaths:
             res.fail(Finding("DOM-GUARD", fi.module, fi.qualname, fi.node, "%s has no `raise InputOutsideDomain` guard: out-of-domain inputs return numbers" % label, construct="domain guard of " + label))
             continue
-        if not before_use:
-            res.fail(Finding("DOM-GUARD", fi.module, fi.qualname, guard, "the input is used (or rebound) before the domain guard of %s: the test no longer sees the raw input" % label))
+        got = set()
+        bad = None
+        seen_tests = set()
+        for pp in rpaths:
+            if not pp.conds:
+                bad = "unconditional raise"
+                continue
+            et, raw, pol = pp.conds[-1]
+            if id(raw) in seen_tests:
+                continue
+            seen_tests.add(id(raw))
+            if not pol:
+                bad = "the guard raises on the negation of `%s`" % norm_text(raw)[:60]
+                continue
+            atoms = _canon_minmax(et)
+            if atoms is None:
+                bad = "guard condition `%s` is not a disjunction of min/max comparisons" % norm_text(et)[:80]
+                continue
+            got |= atoms
+            # earlier conditions on this path must not depend on the input's values (the guard comes first)
+        if bad is not None and not got:
+            res.undecide(label, bad)
             continue
-        got = _canon_minmax(guard.test)
-        if got is None:
-            res.undecide(label, "guard condition `%s` is not a disjunction of min/max comparisons" % norm_text(guard.test))
+        guard_node = rpaths[0].ret_node
+        if any("@host" in a for a in got) and {a.replace("@host", "") for a in got} == want:
+            res.fail(Finding("DOM-GUARD", fi.module, fi.qualname, guard_node, "the domain guard of %s compares Python floats (.item()) with the bound: the extreme is widened to double while the knots / bounds live in the input's dtype, so an end-point that equals the bound in float32 can be rejected (or an outside value accepted)" % label))
             continue
         if got == want:
             res.ok("%s: raises when %s" % (label, " or ".join(sorted(got))))
+        elif any(a.split(" ")[0] not in ("MIN(%s)" % x, "MAX(%s)" % x) for a in got):
+            res.fail(Finding("DOM-GUARD", fi.module, fi.qualname, guard_node, "the input is used (or rebound) before the domain guard of %s: the test no longer sees the raw input (it tests %s)" % (label, " or ".join(sorted(got))[:90])))
         else:
-            res.fail(Finding("DOM-GUARD", fi.module, fi.qualname, guard, "%s must reject exactly the inputs with %s (domain %s%s, %s%s); the guard tests %s" % (label, " or ".join(sorted(want)), "(" if lo_open else "[", lo, hi if hi is not None else "inf", ")" if (hi_open or hi is None) else "]", " or ".join(sorted(got)))))
+            res.fail(Finding("DOM-GUARD", fi.module, fi.qualname, guard_node, "%s must reject exactly the inputs with %s (domain %s%s, %s%s); the guard tests %s" % (label, " or ".join(sorted(want)), "(" if lo_open else "[", lo, hi if hi is not None else "inf", ")" if (hi_open or hi is None) else "]", " or ".join(sorted(got)))))
     # Logit = InverseTransform(Sigmoid)
     logit = p.find_class("Logit", "nflows.transforms.nonlinearities")
     init = logit.methods.get("__init__")
@@ -701,22 +789,55 @@ def dom_guard_rule(ctx):
         res.ok("Logit.forward is Sigmoid.inverse (guarded above)")
     else:
         res.fail(Finding("DOM-GUARD", logit.module, "Logit", logit.node, "Logit must be InverseTransform(Sigmoid(...)) to inherit the domain guard", construct="Logit"))
-    # DOM-CLAMP
+    # DOM-CLAMP: on every returning path of Sigmoid.inverse, each logarithm is taken of an
+    # expression in which the raw input only occurs under clamp(., eps, 1 - eps)
     sig = p.find_class("Sigmoid", "nflows.transforms.nonlinearities").methods["inverse"]
-    body = sig.node.body
-    gi = next((i for i, s in enumerate(body) if isinstance(s, ast.If)), None)
-    clamp_i = next((i for i, s in enumerate(body) if isinstance(s, ast.Assign) and "clamp" in norm_text(s.value)), None)
-    log_i = next((i for i, s in enumerate(body) if "torch.log" in norm_text(s) and not isinstance(s, ast.If)), None)
-    okc = False
-    if clamp_i is not None:
-        c = body[clamp_i].value
-        txt = norm_text(c).replace(" ", "")
-        okc = gi is not None and gi < clamp_i and (log_i is None or clamp_i < log_i) and ("self.eps,1-self.eps" in txt)
     r2 = RuleResult("DOM-CLAMP", "Sigmoid.inverse clamps into [eps, 1 - eps] after the guard and before the logarithms")
-    if okc:
-        r2.ok("Sigmoid.inverse: guard, then clamp(inputs, eps, 1 - eps), then logs")
+    x = sig.params()[0][0]
+
+    def is_eps_clamp(c):
+        if not (isinstance(c, ast.Call) and func_last(c) == "clamp"):
+            return False
+        is_mod = isinstance(c.func, ast.Attribute) and isinstance(c.func.value, ast.Name) and c.func.value.id == "torch"
+        rest = c.args[1:] if is_mod else c.args
+        lo = next((k.value for k in c.keywords if k.arg == "min"), rest[0] if rest else None)
+        hi = next((k.value for k in c.keywords if k.arg == "max"), rest[1] if len(rest) > 1 else None)
+        if lo is None or hi is None:
+            return False
+        lt, ht = norm_text(lo).replace(" ", ""), norm_text(hi).replace(" ", "")
+        return lt == "self.eps" and ht in ("1-self.eps", "1.0-self.eps")
+
+    def raw_under_log(e, in_log, clamped, seen):
+        """does the raw input reach a logarithm without passing the clamp?"""
+        key = (id(e), in_log, clamped)
+        if key in seen:
+            return False
+        seen.add(key)
+        if isinstance(e, ast.Name):
+            return e.id == x and in_log and not clamped
+        if isinstance(e, ast.Call):
+            if is_eps_clamp(e):
+                clamped = True
+            if func_last(e) in ("log", "log1p", "logit"):
+                in_log = True
+        return any(raw_under_log(c, in_log, clamped, seen) for c in ast.iter_child_nodes(e))
+
+    n_ret = 0
+    badp = None
+    has_log = False
+    for pp in paths_of(sig.node):
+        if pp.kind != "return":
+            continue
+        n_ret += 1
+        has_log = has_log or any(isinstance(c, ast.Call) and func_last(c) in ("log", "log1p", "logit") for c in uwalk(pp.ret))
+        if raw_under_log(pp.ret, False, False, set()):
+            badp = pp
+    if n_ret and badp is None and has_log:
+        r2.ok("Sigmoid.inverse: every logarithm sees the input through clamp(., eps, 1 - eps)")
+    elif n_ret and not has_log:
+        r2.undecide("Sigmoid.inverse", "no logarithm found on the returning paths")
     else:
-        r2.fail(Finding("DOM-CLAMP", sig.module, sig.qualname, sig.node, "Sigmoid.inverse must clamp its argument into [eps, 1 - eps] after the domain guard and before taking logarithms: the in-domain end-points 0 and 1 otherwise give infinities", construct="clamp in Sigmoid.inverse"))
+        r2.fail(Finding("DOM-CLAMP", sig.module, sig.qualname, (badp.ret_node if badp is not None else sig.node), "Sigmoid.inverse must clamp its argument into [eps, 1 - eps] after the domain guard and before taking logarithms: the in-domain end-points 0 and 1 otherwise give infinities", construct="clamp in Sigmoid.inverse"))
     return [res, r2]
 
 
